@@ -9,8 +9,8 @@ macro "cases_ite" : tactic => `(tactic| (repeat' split) <;> (try simp_all) <;> (
 /-- split every `if`, then close value goals and refute UB branches with `bv_decide` -/
 macro "bv_close" : tactic => `(tactic| (repeat' split) <;> first
   | rfl
-  | (simp only [Out.val.injEq, CVal.u32.injEq, CVal.u64.injEq, CVal.i32.injEq, CVal.i64.injEq,
-                CVal.u8.injEq, CVal.u16.injEq, CVal.i8.injEq, CVal.i16.injEq, CVal.f32.injEq, CVal.f64.injEq]; bv_decide)
+  | ((try simp only [Out.val.injEq, CVal.u32.injEq, CVal.u64.injEq, CVal.i32.injEq, CVal.i64.injEq,
+                CVal.u8.injEq, CVal.u16.injEq, CVal.i8.injEq, CVal.i16.injEq, CVal.f32.injEq, CVal.f64.injEq]); bv_decide)
   | (exfalso; bv_decide))
 
 /-- evaluate a function body path by path: evaluate up to the next undecided `if`, split, repeat -/
